@@ -39,7 +39,7 @@ LEVEL_NOTE = (
 DESIGN_REF = "DESIGN.md section 5 and section 6, C08"
 RULE = (
     "case = (query shape, resolver style per field coordinate in {default, sync, async, nested = deferred result that is itself deferred}, outcome overrides on <=k response paths from "
-    "{ResolverError, unexpected RuntimeError, null}); per case every configuration is run, and under asyncio / thread pool all "
+    "{ResolverError and subclass, another located library error, unexpected RuntimeError, null, lazily failing unsized / sized sequences, bad leaf values}; shapes include a custom scalar serialising non-null values to null); per case every configuration is run, and under asyncio / thread pool all "
     "completion orders (+ early completions up to the bound); baton cases = combinator harnesses x all interleavings up to the "
     "preemption bound. evaluation = one execution compared with the reference; non-trivial = distinct (case, config, schedule) "
     "with at least one scheduling choice point"
